@@ -2,7 +2,7 @@
    instance names the function to run. *)
 From Coq Require Import List ZArith.
 Import ListNotations.
-From V Require Import Valid.Run Model.RunC13 Model.Edits2 Model.IterHier Model.BytecodeRun Model.Serial Model.Serial2 Model.Serial2Run Model.LoopEdit Model.Extract Model.CbHier Model.TotalRun Model.DomWlRun Model.LoopHier Model.LoopHierRun Model.UniHierRun Model.LevelWfRun Model.InsHier Model.InsHierRun Model.ImmDomRun Model.Render Model.RunSrc Model.PipeRun Model.SrcRun Model.BackRun Model.SrcERun.
+From V Require Import Valid.Run Model.RunC13 Model.Edits2 Model.IterHier Model.BytecodeRun Model.Serial Model.Serial2 Model.Serial2Run Model.LoopEdit Model.Extract Model.CbHier Model.TotalRun Model.DomWlRun Model.LoopHier Model.LoopHierRun Model.UniHierRun Model.HierCols Model.LevelWfRun Model.InsHier Model.InsHierRun Model.ImmDomRun Model.Render Model.RunSrc Model.PipeRun Model.SrcRun Model.BackRun Model.SrcERun.
 Local Open Scope Z_scope.
 
 Definition run_any (rows : list (list Z)) : list Z :=
@@ -15,8 +15,8 @@ Definition run_any (rows : list (list Z)) : list Z :=
   | [117] :: rest => run_c17 rest
   | [118] :: rest => run_fromdict rest
   | [119] :: rest => run_loop rest
-  | [120] :: rest => run_extract2 rest
-  | [121] :: rest => run_cbh2 rest
+  | [120] :: rest => run_extract3 rest
+  | [121] :: rest => run_cbh3 rest
   | [122] :: rest => run_dom rest
   | [123] :: rest => run_looph5 rest
   | [124] :: rest => run_ibh4 rest
